@@ -115,6 +115,26 @@ class HNative:
         param.data = value.detach().clone().to(param.dtype if not param.dtype.is_floating_point else value.dtype)
         return param
 
+    def patch(self, module, name, value):
+        m = importlib.import_module(module)
+        self._patched = getattr(self, '_patched', [])
+        self._patched.append((m, name, getattr(m, name)))
+        setattr(m, name, value)
+
+    def unpatch_all(self):
+        for m, name, old in reversed(getattr(self, '_patched', [])):
+            setattr(m, name, old)
+        self._patched = []
+
+    def set_requires_grad(self, t, v):
+        t.requires_grad_(bool(v))
+
+    def get_requires_grad(self, t):
+        return bool(t.requires_grad)
+
+    def named_parameters(self, module):
+        return list(module.named_parameters())
+
     def scalar(self, t):
         if self.torch.is_tensor(t):
             return t.item()
@@ -382,6 +402,7 @@ def run_task(task):
         out['exception'] = type(e).__name__
         out['exception_msg'] = str(e)[:300]
         out['traceback'] = traceback.format_exc()[-1200:]
+    H.unpatch_all()
     out['ensures'] = H.ensures
     out['observations'] = H.observations
     out['missing'] = H.missing[:10]
